@@ -1771,3 +1771,12 @@ impl<'a, 'c, P: StylesheetParser<'a>> ValueParser<'a, 'c, P> {
         Ok(())
     }
 }
+
+#[cfg(feature = "verif-hooks")]
+impl<'a, 'c, P: StylesheetParser<'a>> ValueParser<'a, 'c, P> {
+    /// The hex-colour reader, positioned just after the `#`
+    pub fn verif_parse_hex_color_contents(parser: &mut P) -> SassResult<Color> {
+        let mut value_parser = Self::new(parser, None, false, false);
+        value_parser.parse_hex_color_contents(parser)
+    }
+}
